@@ -57,6 +57,10 @@ func svSharded(t *testing.T, testName string, n int, dead func(idx int, wedged b
 					return
 				}
 				idx := svLastOpenBegin(outs[i])
+				if idx < from && rc == 3 {
+					// the watchdog reports the wedged scenario itself (record + end marker) before it leaves
+					idx = svLastBegin(outs[i])
+				}
 				if idx < from {
 					errs[i] = fmt.Errorf("shard %d: exit %d outside a scenario: %s", i, rc, svTail(string(out), 1500))
 					return
@@ -125,6 +129,24 @@ func svLastRecord(b []byte) []byte {
 	for _, line := range bytes.Split(b, []byte("\n")) {
 		if len(line) > 0 && !bytes.HasPrefix(line, []byte(`{"marker"`)) && json.Valid(line) {
 			last = line
+		}
+	}
+	return last
+}
+
+func svLastBegin(path string) int {
+	b, err := os.ReadFile(path)
+	if err != nil {
+		return -1
+	}
+	last := -1
+	for _, line := range bytes.Split(b, []byte("\n")) {
+		var m struct {
+			Marker string `json:"marker"`
+			Idx    int    `json:"idx"`
+		}
+		if bytes.HasPrefix(line, []byte(`{"marker"`)) && json.Unmarshal(line, &m) == nil && m.Marker == "begin" {
+			last = m.Idx
 		}
 	}
 	return last
